@@ -235,7 +235,7 @@ func c18(c *Ctx) {
 				}
 			}
 			if d := os.Getenv("C18_DUMP"); d != "" {
-				os.WriteFile(filepath.Join(d, name+".tm"), []byte(fmt.Sprintf("# %v %s\n%s", runErr, strings.TrimSpace(errb.String()), text)), 0o644)
+				os.WriteFile(filepath.Join(d, fmt.Sprintf("%s-%d.tm", name, c.Dist[kind+"-rejected"])), []byte(fmt.Sprintf("# %v %s\n%s", runErr, strings.TrimSpace(errb.String()), text)), 0o644)
 			}
 			return false
 		}
@@ -532,9 +532,7 @@ func c18Sites(c *Ctx, repo, tmp string) {
 			continue
 		}
 		body := text[i:]
-		if j := strings.Index(body, "\n]"); j >= 0 {
-			body = body[:j]
-		} else if j := strings.Index(body, "[]"); j >= 0 {
+		if j := strings.Index(body, "\n\n"); j >= 0 { // definitions are separated by a blank line
 			body = body[:j]
 		}
 		for _, m := range c18SiteRE.FindAllStringSubmatch(body, -1) {
@@ -588,9 +586,16 @@ func c18Mutate(r *rand.Rand, text string) string {
 	}
 	text = strings.Join(lines, "\n")
 	// 3. rename some nonterminals consistently (identifier-boundary replace outside the templates section)
-	body, tail := text, ""
-	if i := strings.Index(text, "\n%%"); i >= 0 {
-		body, tail = text[:i], text[i:]
+	head, body, tail := "", text, ""
+	if i := strings.Index(body, "\n%%"); i >= 0 {
+		body, tail = body[:i], body[i:]
+	}
+	if i := strings.Index(body, ":: parser"); i >= 0 {
+		head, body = body[:i], body[i:]
+	} else if i := strings.Index(body, "::parser"); i >= 0 {
+		head, body = body[:i], body[i:]
+	} else {
+		return text
 	}
 	names := map[string]bool{}
 	for _, m := range c18NontermRE.FindAllStringSubmatch(body, -1) {
@@ -598,7 +603,7 @@ func c18Mutate(r *rand.Rand, text string) string {
 		if n == "" {
 			n = m[5]
 		}
-		if len(n) >= 4 && n != "error" && n != "invalid_token" {
+		if len(n) >= 4 && n != "error" && n != "invalid_token" && n != "input" && !strings.Contains(head, "\n"+n) {
 			names[n] = true
 		}
 	}
@@ -613,12 +618,12 @@ func c18Mutate(r *rand.Rand, text string) string {
 	}
 	for _, n := range list {
 		suffix := []string{"X", "Zz", "Q7"}[r.Intn(3)]
-		re := regexp.MustCompile(`(^|[^A-Za-z0-9_$.'"/\\-])` + regexp.QuoteMeta(n) + `($|[^A-Za-z0-9_'"/\\-])`)
+		re := regexp.MustCompile(`(^|[^A-Za-z0-9_.'"/\\-])` + regexp.QuoteMeta(n) + `($|[^A-Za-z0-9_'"/\\-])`)
 		for k := 0; k < 2; k++ { // twice: adjacent occurrences share a separator
 			body = re.ReplaceAllString(body, "${1}"+n+suffix+"${2}")
 		}
 	}
-	return body + tail
+	return head + body + tail
 }
 
 // ---- random feature grammars --------------------------------------------------------------------
@@ -696,7 +701,7 @@ func c18RandGrammar(r *rand.Rand, name string, findings bool) (string, []string)
 		feat("alias-without-opt-suffix")
 	}
 	if pick(30) {
-		sb.WriteString("extraTypes = [\"Extra1\", \"Extra2 -> Expr\"]\n")
+		sb.WriteString("extraTypes = [\"Extra1\", \"Extra2\"]\n")
 		feat("extra-types")
 	}
 
@@ -742,7 +747,7 @@ func c18RandGrammar(r *rand.Rand, name string, findings bool) (string, []string)
 	}
 
 	// ---- parser
-	la2 := pick(30)
+	la2 := lang == "go" && pick(35)
 	if la2 {
 		sb.WriteString("\n:: parser lalr(2)\n\n")
 		feat("lalr2-trie")
@@ -751,7 +756,7 @@ func c18RandGrammar(r *rand.Rand, name string, findings bool) (string, []string)
 	}
 	multiInput := pick(35)
 	if multiInput {
-		sb.WriteString("%input File, Expr no-eoi;\n\n")
+		sb.WriteString("%input File, Block no-eoi;\n\n")
 		feat("multi-input")
 	} else {
 		sb.WriteString("%input File;\n\n")
